@@ -106,11 +106,13 @@ def gen_program(rng, idx):
                 else:
                     vals.append(('num', 7000.5 + tagc[0]))
         f['prepend_values'] = vals
+    if rng.random() < 0.25:
+        add_failing_wraps(rng, funcs, new_param)
     prog = {'name': f'd{idx % 100000}', 'funcs': funcs, 'top': 'g0',
             'specs': {}, 'variants': {}}
-    ctl_names = [p['name'] for f in funcs.values()
-                 for p in f['params'][f['prepend']:]]
-    by_name = {p['name']: p for f in funcs.values() for p in f['params']}
+    live = [f for f in funcs.values() if not f.get('fails')]
+    ctl_names = [p['name'] for f in live for p in f['params'][f['prepend']:]]
+    by_name = {p['name']: p for f in live for p in f['params']}
     if ctl_names and rng.random() < 0.35:
         for nm in rng.sample(ctl_names, rng.randint(1, min(4, len(ctl_names)))):
             prog['specs'][nm] = rng.choice([0.3, 7, 9.5, 0.01, 220.0])
@@ -144,18 +146,109 @@ def gen_program(rng, idx):
     return prog
 
 
+INVALID_ANNOTATIONS = ['float', 'int', '1', "'krr'", "'a'", "'KR'", "'rate'",
+                       'str', '2.5', "'tr '"]
+
+
+def add_failing_wraps(rng, funcs, new_param):
+    """'recovered failing wrap': a helper with k >= 0 valid parameters, then
+    one with an invalid rate annotation, then 0-2 more valid ones.  The
+    calling graph function catches the ValueError of SynthDef.wrap and then
+    wraps a fallback helper (same parameter names / other names) or nothing."""
+    import copy
+    hosts = [f['name'] for f in funcs.values()]
+    for _ in range(rng.choice([1, 1, 1, 2])):
+        k = len(funcs)
+        fname = f'g{k}'
+        prepend = 1 if rng.random() < 0.2 else 0
+        params = [new_param(True, False) for _ in range(prepend)]
+        nvalid = rng.choice([0, 1, 1, 2, 2, 3])
+        params += [new_param(False, False) for _ in range(nvalid)]
+        bad = new_param(False, False)
+        bad['annot'] = None
+        bad['annot_src'] = rng.choice(INVALID_ANNOTATIONS)
+        if bad['default'][0] == 'none':
+            bad['default'] = ('num', 0.5)
+        params.append(bad)
+        params += [new_param(False, False) for _ in range(rng.choice([0, 0, 1, 2]))]
+        nctl = len(params) - prepend
+        rates = None
+        if rng.random() < 0.4:
+            rates = [rng.choice([None, 0.1, 'ir', 'kr', 0.5, 'tr'])
+                     for _ in range(rng.randint(0, nctl))]
+        host = funcs[rng.choice(hosts)]
+        pv = []
+        for _ in range(prepend):
+            pn = [p['name'] for p in host['params']]
+            pv.append(('parent', rng.choice(pn)) if pn and rng.random() < 0.5
+                      else ('num', 7900.5 + k))
+        f = {'name': fname, 'params': params, 'prepend': prepend,
+             'rates': rates, 'wraps': [], 'prepend_values': pv,
+             'fails': True, 'fallback': None}
+        funcs[fname] = f
+        mode = rng.choices(['none', 'other', 'same'], [35, 30, 35])[0]
+        if mode != 'none':
+            fb = f'g{k + 1}'
+            if mode == 'same':
+                fparams = []
+                for p in params[prepend:]:
+                    q = copy.deepcopy(p)
+                    if 'annot_src' in q:
+                        if rng.random() < 0.4:
+                            continue            # dropped in the fallback
+                        del q['annot_src']
+                        q['annot'] = rng.choice([None, 'ir', 'kr', 'ar'])
+                    elif rng.random() < 0.3 and q['default'][0] == 'num':
+                        q['default'] = ('num', rng.choice(NUMS))
+                    fparams.append(q)
+                frates = rates if rng.random() < 0.5 else None
+            else:
+                fparams = [new_param(False, False)
+                           for _ in range(rng.choice([0, 1, 2, 3]))]
+                frates = None if rng.random() < 0.6 else [
+                    rng.choice([None, 0.2, 'ir', 'ar'])
+                    for _ in range(rng.randint(0, len(fparams)))]
+            funcs[fb] = {'name': fb, 'params': fparams, 'prepend': 0,
+                         'rates': frates, 'wraps': [], 'prepend_values': []}
+            f['fallback'] = fb
+        host['wraps'].insert(rng.randint(0, len(host['wraps'])), fname)
+
+
+def without_failed_wraps(prog):
+    """the same program with every rejected helper removed (its fallback
+    is wrapped directly in its place)."""
+    import copy
+    q = copy.deepcopy(prog)
+    dead = {n for n, f in q['funcs'].items() if f.get('fails')}
+    for f in q['funcs'].values():
+        new = []
+        for w in f['wraps']:
+            if w in dead:
+                if q['funcs'][w].get('fallback'):
+                    new.append(q['funcs'][w]['fallback'])
+            else:
+                new.append(w)
+        f['wraps'] = new
+    for n in dead:
+        del q['funcs'][n]
+    return q
+
+
 def param_source(p):
     s = p['name']
+    if 'annot_src' in p:
+        s += ': ' + p['annot_src']
     if p['annot']:
         s += f": '{p['annot']}'"
     d = p['default']
+    sp = p['annot'] or 'annot_src' in p
     if d[0] == 'none':
-        s += ' = None' if p['annot'] else '=None'
+        s += ' = None' if sp else '=None'
     elif d[0] == 'num':
-        s += (' = ' if p['annot'] else '=') + repr(d[1])
+        s += (' = ' if sp else '=') + repr(d[1])
     elif d[0] == 'tuple':
         body = ', '.join(repr(x) for x in d[1]) + (',' if len(d[1]) == 1 else '')
-        s += (' = ' if p['annot'] else '=') + f'({body})'
+        s += (' = ' if sp else '=') + f'({body})'
     return s
 
 
@@ -174,9 +267,12 @@ def describe(prog):
     """readable summary for samples / witnesses."""
     d = {'source': source(prog), 'definition_name': prog['name']}
     for f in prog['funcs'].values():
-        if f['rates'] is not None or f['prepend'] or f['wraps']:
+        if f['rates'] is not None or f['prepend'] or f['wraps'] \
+                or f.get('fails'):
             d[f['name']] = {'rates': f['rates'], 'prepend': f['prepend_values'],
                             'wraps': f['wraps']}
+            if f.get('fails'):
+                d[f['name']]['rejected_by_wrap_then_fallback'] = f['fallback']
     if prog['specs']:
         d['specs'] = prog['specs']
     if prog['variants']:
@@ -190,6 +286,7 @@ def nontrivial(prog, lay):
     rates = {s.rate for s in lay['slots'].values()}
     extra = (any(s.is_array for s in lay['slots'].values())
              or any(l != 0 for s in lay['slots'].values() for l in s.lags)
-             or len(prog['funcs']) > 1
+             or len([f for f in prog['funcs'].values()
+                     if not f.get('fails')]) > 1
              or any(f['prepend'] for f in prog['funcs'].values()))
     return len(rates) >= 2 and extra
